@@ -474,6 +474,20 @@ impl StorageEngine {
             return Err(StorageError::KnowledgeGraphNotFound(kg.to_string()));
         }
 
+        // Take the graph's write lock before the logical time is assigned and keep
+        // it, together with the dropping_kgs guard, until the in-memory state is
+        // updated. Recovery replays the log in time order, so two writes to one graph
+        // must be applied in memory in the order of their logical times; and a write
+        // that was persisted for this incarnation of the graph must not be applied to
+        // a later incarnation created after a concurrent drop.
+        let db = Arc::clone(
+            self.knowledge_graphs
+                .get(kg)
+                .ok_or_else(|| StorageError::KnowledgeGraphNotFound(kg.to_string()))?
+                .value(),
+        );
+        let mut db = db.write();
+
         // Generate shard name and logical time
         let shard = format!("{kg}:{relation}");
         let time = self.logical_time.fetch_add(1, Ordering::SeqCst);
@@ -499,18 +513,10 @@ impl StorageEngine {
             "persist_append_complete"
         );
 
-        // Release dropping_kgs guard before acquiring KG write lock
-        drop(dropping_guard);
         #[cfg(inputlayer_verif)]
         crate::verif_hooks::point("se.write.after_persist");
 
-        // Update in-memory state
-        let db = self
-            .knowledge_graphs
-            .get(kg)
-            .ok_or_else(|| StorageError::KnowledgeGraphNotFound(kg.to_string()))?;
-
-        let mut db = db.write();
+        // Update in-memory state (still under the graph's write lock)
         db.insert_in_memory(relation, tuples, time)
     }
 
@@ -596,6 +602,16 @@ impl StorageEngine {
             return Err(StorageError::KnowledgeGraphNotFound(kg.to_string()));
         }
 
+        // Same ordering as insert: graph write lock from the logical time to the
+        // in-memory update, dropping_kgs guard held throughout.
+        let db = Arc::clone(
+            self.knowledge_graphs
+                .get(kg)
+                .ok_or_else(|| StorageError::KnowledgeGraphNotFound(kg.to_string()))?
+                .value(),
+        );
+        let mut db = db.write();
+
         // Generate shard name and logical time
         let shard = format!("{kg}:{relation}");
         let time = self.logical_time.fetch_add(1, Ordering::SeqCst);
@@ -612,18 +628,10 @@ impl StorageEngine {
         self.persist.ensure_shard(&shard)?;
         self.persist.append(&shard, &updates)?;
 
-        // Release dropping_kgs guard before acquiring KG write lock
-        drop(dropping_guard);
         #[cfg(inputlayer_verif)]
         crate::verif_hooks::point("se.write.after_persist");
 
-        // Update in-memory state
-        let db = self
-            .knowledge_graphs
-            .get(kg)
-            .ok_or_else(|| StorageError::KnowledgeGraphNotFound(kg.to_string()))?;
-
-        let mut db = db.write();
+        // Update in-memory state (still under the graph's write lock)
         db.delete_in_memory(relation, &tuples, time)
     }
 
